@@ -41,10 +41,10 @@ type Rule struct {
 }
 
 type propSpec struct {
-	ID      string
-	Rules   []*Rule
-	NotCov  string // what is not decided
-	Assume  []string
+	ID     string
+	Rules  []*Rule
+	NotCov string // what is not decided
+	Assume []string
 }
 
 type knownFinding struct {
